@@ -88,12 +88,17 @@ func (s *sandbox) cleanup() { os.RemoveAll(s.root) }
 
 // trace runs the driver on ops under the tracer.
 func (s *sandbox) trace(ops []Op, inj *Injection, reads bool) (*Result, []DrvRes, error) {
+	return s.traceOpt(ops, Options{Inject: inj, RecordReads: reads})
+}
+
+func (s *sandbox) traceOpt(ops []Op, o Options) (*Result, []DrvRes, error) {
+	inj, reads := o.Inject, o.RecordReads
 	job, _ := json.Marshal(map[string]any{"config": s.cfgFile, "ops": ops})
 	jf := filepath.Join(s.root, "job.json")
 	if err := os.WriteFile(jf, job, 0o600); err != nil {
 		return nil, nil, err
 	}
-	res, err := Run([]string{drvPath(), jf}, Options{SandboxRoot: s.root, SnapDir: s.base, Inject: inj, RecordReads: reads})
+	res, err := Run([]string{drvPath(), jf}, Options{SandboxRoot: s.root, SnapDir: s.base, Inject: inj, RecordReads: reads, OnEvent: o.OnEvent})
 	if err != nil {
 		return nil, nil, err
 	}
